@@ -36,6 +36,19 @@ CLAIMED = {
         ref="4 C04"),
 }
 
+CLAIMED["C15"] = dict(
+    engine="engine",
+    technique="TLA+ specs StateTrie (prefix locks, iterator snapshot) and InstanceHandles (contract-visible handles, interrupts) checked by TLC; behaviours replayed into MutableTrie and InstanceState; recorded trie traces validated by TLC",
+    text=("Lock rules are stated in StateTrie.tla (insert/delete refused iff a lock is a prefix of the key, delete_prefix refused iff a lock is a prefix of or extends the "
+          "argument, delete_iter releases one occurrence) and TLC checks that under these rules a live iterator's key set equals its creation snapshot, that refusals are no-ops "
+          "and that handles die with their entry; InstanceHandles.tla adds the contract-visible handle encoding, tombstoned iterators, partial reads/writes/resizes and the two "
+          "resume protocols (state_updated false/true) with the invariants NoForeignData and StaleInvalid. One behaviour per transition of both TLC state graphs plus random long "
+          "behaviours are replayed into the real MutableTrie (H1) and InstanceState (H3), comparing every return code and the full contents after every step; random real-trie "
+          "traces with several iterators on equal/nested/disjoint prefixes are validated by TLC."),
+    note=("Bounded as C03; InstanceHandles behaviours: 5 keys, <= 3-4 ops per transition-covering behaviour, 30 ops simulated, <= 8 handles. Which state handle the scheduler passes on resume is "
+          "an environment assumption (DESIGN O6). Energy charged by these operations is C14's concern. Trusted: TLC, harness, H1/H3 wrappers."),
+    ref="4 C15")
+
 NOT_YET = {
 }
 
